@@ -11,6 +11,7 @@ import random
 import sys
 from collections import defaultdict, deque
 
+ITER_KINDS = {"iter", "keys", "values", "drain", "into_iter", "into_keys", "into_values"}
 READ_OPS = {"peek", "peek_entry", "peek_lru", "peek_mru", "contains", "len", "is_empty",
             "current_size", "max_size", "capacity", "debug", "iter", "keys", "values", "clone"}
 
@@ -87,18 +88,24 @@ def script_line(e):
     a = dict(e["a"])
     exp = {"t": e["t"][c - 1], "ret": e["ret"], "fresh": e["fresh"], "ev": e["ev"],
            "dropped": e["dropped"], "handed": e["handed"], "leaked": e["leaked"],
-           "hashmax": e["hashmax"], "grew": e["grew"], "readonly": a["op"] in READ_OPS}
+           "hashmax": e["hashmax"], "grew": e["grew"], "readonly": a["op"] in READ_OPS,
+           "nalive": sum(1 for x in e["f"] if x["alive"])}
     if e.get("d", 0):
         exp["dt"] = e["t"][e["d"] - 1]
     return {"c": c, "d": e.get("d", 0), "a": a, "expect": exp}
 
 
+def is_forget(e):
+    return bool(e["a"].get("fl")) and e["a"]["op"] in ITER_KINDS
+
+
 def tour(g, rnd):
-    """greedy covering tour over all edges, starting with no cache at all"""
+    """greedy covering tour over all edges (except forgotten iterators, which get their
+    own segments), starting with no cache at all"""
     start = g.dead()
     if start is None:
         raise SystemExit("dump has no all-dead state; enable the drop/new operations")
-    unvisited = {s: list(es) for s, es in g.out.items()}
+    unvisited = {s: [i for i in es if not is_forget(g.edges[i])] for s, es in g.out.items()}
     for s in unvisited:
         rnd.shuffle(unvisited[s])
         # self-loops first (they do not move us)
@@ -133,7 +140,7 @@ def random_walk(g, rnd, steps):
     cur = g.dead()
     seq = []
     for _ in range(steps):
-        es = g.out.get(cur)
+        es = [i for i in (g.out.get(cur) or []) if not is_forget(g.edges[i])]
         if not es:
             seq.append(-1)
             cur = g.dead()
@@ -155,6 +162,69 @@ def write_script(g, seq, out):
                 n += 1
         fh.write(json.dumps({"reset": True}) + "\n")
     return n
+
+
+def op_line(c, op, **kw):
+    a = {"op": op, "k": 0, "kh": 0, "vs": 0, "n": 0, "keep": [], "w": [], "fl": False}
+    a.update(kw)
+    return {"c": c, "d": 0, "a": a}
+
+
+def suffix_ops(c, nkeys):
+    """continued use after a leak / a panic: lookups, promotion, insertion, full
+    traversals in both directions, removal, reallocation, then (by the runner) drop"""
+    return [op_line(c, "len"), op_line(c, "get_lru"), op_line(c, "peek_mru"),
+            op_line(c, "insert", k=1, kh=0, vs=1),
+            op_line(c, "iter", w=["n"] * (nkeys + 2)),
+            op_line(c, "values", w=["b"] * (nkeys + 2)),
+            op_line(c, "get", k=2), op_line(c, "remove_mru"),
+            op_line(c, "reserve", n=9), op_line(c, "mutate", k=1, vs=2),
+            op_line(c, "shrink_to_fit"), op_line(c, "debug"), op_line(c, "clear"),
+            op_line(c, "insert", k=3, kh=0, vs=0)]
+
+
+def shortest_paths(g):
+    start = g.dead()
+    prev = {start: None}
+    dq = deque([start])
+    while dq:
+        u = dq.popleft()
+        for v, ei in g.succ[u].items():
+            if v not in prev:
+                prev[v] = (u, ei)
+                dq.append(v)
+
+    def path_to(s):
+        p = []
+        while prev.get(s) is not None:
+            u, ei = prev[s]
+            p.append(ei)
+            s = u
+        p.reverse()
+        return p
+    return prev, path_to
+
+
+def strip_expect(line):
+    return {k: v for k, v in line.items() if k != "expect"}
+
+
+def forget_segments(g, rnd, out, max_edges):
+    prev, path_to = shortest_paths(g)
+    cands = [i for i, e in enumerate(g.edges) if is_forget(e) and e["_f"] in prev]
+    rnd.shuffle(cands)
+    if max_edges and len(cands) > max_edges:
+        cands = cands[:max_edges]
+    nkeys = 1 + max((len(c["ord"]) for st in g.states for c in st), default=0)
+    with open(out, "w") as fh:
+        for ei in cands:
+            e = g.edges[ei]
+            owning = e["a"]["op"] in ("into_iter", "into_keys", "into_values")
+            seg = {"prefix": [strip_expect(script_line(g.edges[j])) for j in path_to(e["_f"])],
+                   "op": strip_expect(script_line(e)),
+                   "suffix": [] if owning else suffix_ops(e["c"], nkeys)}
+            fh.write(json.dumps(seg, separators=(",", ":")) + "\n")
+    return len(cands)
 
 
 def crash_segments(g, rnd, out, max_edges):
@@ -179,9 +249,11 @@ def crash_segments(g, rnd, out, max_edges):
         p.reverse()
         return p
 
+    nkeys = 1 + max((len(c["ord"]) for st in g.states for c in st), default=0)
     cands = [i for i, e in enumerate(g.edges)
              if e["a"]["op"] not in ("new", "drop", "len", "is_empty", "current_size",
-                                     "max_size", "capacity") and e["_f"] in prev]
+                                     "max_size", "capacity", "peek_lru", "peek_mru")
+             and e["a"]["op"] not in ITER_KINDS and e["_f"] in prev]
     rnd.shuffle(cands)
     if max_edges and len(cands) > max_edges:
         # keep the sample spread over operations
@@ -197,10 +269,13 @@ def crash_segments(g, rnd, out, max_edges):
     with open(out, "w") as fh:
         for ei in cands:
             e = g.edges[ei]
-            prefix = [script_line(g.edges[j]) for j in path_to(e["_f"])]
-            # suffix: a short random walk from the edge's source state's successors is not
-            # known after a crash, so the suffix is a fixed family of probing operations
-            seg = {"prefix": prefix, "op": script_line(e)}
+            prefix = [strip_expect(script_line(g.edges[j])) for j in path_to(e["_f"])]
+            op = e["a"]["op"]
+            sweep = ["hash", "eq", "size", "clone"]
+            if op in ("mutate", "retain"):
+                sweep += ["closure", "closure_after"]
+            seg = {"prefix": prefix, "op": strip_expect(script_line(e)),
+                   "suffix": suffix_ops(e["c"], nkeys), "sweep": sweep}
             fh.write(json.dumps(seg, separators=(",", ":")) + "\n")
             n += 1
     return n
@@ -223,6 +298,9 @@ def main():
         covered = len({ei for ei in seq if ei >= 0})
         print(json.dumps({"states": len(g.states), "edges": len(edges), "steps": n,
                           "edges_covered": covered}))
+    elif mode == "forget":
+        n = forget_segments(g, rnd, out, int(opts.get("--max-edges", "0")))
+        print(json.dumps({"states": len(g.states), "edges": len(edges), "segments": n}))
     elif mode == "crash":
         n = crash_segments(g, rnd, out, int(opts.get("--max-edges", "0")))
         print(json.dumps({"states": len(g.states), "edges": len(edges), "segments": n}))
